@@ -23,3 +23,7 @@ package mathutils
 //@   ensures [C05,C02,C15] upper: forall x real :: in_upper(result1, result3, x) <==> upper_ok(maximum, exclusiveMaximum, x)
 //@   ensures [C05,C15] shape-min: result0 == nil || result0 == minimum || fresh(result0)
 //@   ensures [C05,C15] shape-max: result1 == nil || result1 == maximum || fresh(result1)
+//@   ensures [C05,C15] nil-min: result0 == nil <==> minimum == nil && !(exclusiveMinimum != nil && is_float(*exclusiveMinimum))
+//@   ensures [C05,C15] nil-max: result1 == nil <==> maximum == nil && !(exclusiveMaximum != nil && is_float(*exclusiveMaximum))
+//@   ensures [C05,C15] fresh-min: fresh(result0) ==> exclusiveMinimum != nil && is_float(*exclusiveMinimum)
+//@   ensures [C05,C15] fresh-max: fresh(result1) ==> exclusiveMaximum != nil && is_float(*exclusiveMaximum)
